@@ -34,7 +34,7 @@ from vf.ref import http1 as ref
 PROPERTY = "C05"
 LEVEL = "exploration"
 ENGINE = "sansio"
-BUDGET = {"quick": (330, 21), "thorough": (40000, 240)}
+BUDGET = {"quick": (330, 18), "thorough": (40000, 240)}
 WORKERS = {"quick": 4, "thorough": 16}
 REQUIRED = ["client.stream", "server.stream", "server.order", "flow.request", "flow.response", "peer.protocol", "m3.concurrency"]
 TECHNIQUE = "runtime monitoring: sans-io schedule exploration with tagged streams, echoing hyper-h2 peers and a live concurrency monitor"
@@ -206,6 +206,16 @@ def flat(headers):
 
 def classify(kind, info):
     """Mechanism from properties of the case / history (never seeds or messages). None = unexplained."""
+    consequence = kind in ("client-stream-never-answered", "upstream-stream-not-one-client-stream") and not info.get("foreign")
+    # (1) a peer lowered SETTINGS_INITIAL_WINDOW_SIZE after data was in flight -> stream window negative ->
+    #     BufferedH2Connection.send_data slices with the negative window and hyper-h2 raises FlowControlError out of the layer
+    if info.get("window_lowered") and info.get("exc_sites") == {"FlowControlError@_http_h2.py:send_data"}:
+        if kind == "layer-exception" or consequence:
+            return "buffered-h2-send-with-negative-window"
+    # (2) request body streamed upstream, origin already answered completely, then the client resets the stream:
+    #     the reset is not propagated, the upstream stream stays open and occupies a MAX_CONCURRENT_STREAMS slot for ever
+    if kind == "client-stream-never-answered" and info.get("leaked_upstream") and not info.get("forwarded") and not info.get("exc_sites"):
+        return "upstream-stream-leaked-after-client-reset-of-streamed-request-with-complete-response"
     return None
 
 
@@ -232,10 +242,13 @@ def run_case(ctx, opts):
 
     # origin settings schedule
     init_limit = r.choice([None, None, 1, 2, 3, len(streams)])
-    srv_window = r.choice([None, None, 1, 7, 64, 1000])
+    # small windows cost one scheduler round trip per window-full: keep (bytes to move) / window bounded
+    total_req = sum(len(b) for b in full_body.values())
+    total_resp = total_req + sum(sum(len(c) for c in pl["own"]) for pl in plans.values()) + 4 * len(streams)
+    srv_window = r.choice([None, None] + [w for w in (1, 7, 64, 1000) if total_req / w <= 250])
     nplan = r.choice([0, 0, 1, 1, 2])
     limit_plan = [(r.randint(1, max(1, len(streams) - 1)), r.choice([1, 1, 2, 3, 100])) for _ in range(nplan)]
-    cli_window = r.choice([None, None, 1, 5, 50, 2000])
+    cli_window = r.choice([None, None] + [w for w in (1, 5, 50, 2000) if total_resp / w <= 250])
     # 'manager' = hyper-h2's WindowManager decides when to return credit.  Only with default windows: after shrinking
     # INITIAL_WINDOW_SIZE below what is already in flight the library's receiver refuses even the empty END_STREAM frame
     # RFC 9113 6.9 allows at a non-positive window, which would be a false alarm of the peer.
@@ -387,8 +400,14 @@ def run_case(ctx, opts):
         "origin_rst": sorted(t.decode() for t in server_rst_tags), "hooks": d.hook_names()[:80], "exceptions": [e[:2] for e in d.exceptions],
     }
 
+    case_info = {
+        "exc_sites": {f"{e[0]}@{e[1]}" for e in d.exceptions},
+        "window_lowered": srv_window is not None or cli_window is not None,
+        "leaked_upstream": False,
+    }
+
     def viol(kind, extra, info=None):
-        ctx.violation(kind, {**base, **extra}, classify(kind, info or {}))
+        ctx.violation(kind, {**base, **extra}, classify(kind, {**case_info, **(info or {})}))
 
     # ---- layer exceptions are never expected in this domain
     ctx.count("peer.protocol")
@@ -515,7 +534,7 @@ def run_case(ctx, opts):
             elif not full_body[tag].startswith(body):
                 problems.append(("body-not-prefix", body[:200]))
             if problems:
-                viol("upstream-stream-not-one-client-stream", {"tag": tag, "sid": sid, "problems": problems})
+                viol("upstream-stream-not-one-client-stream", {"tag": tag, "sid": sid, "problems": problems}, {"foreign": bool(bad) or any(p_[0] != "body" for p_ in problems)})
         ctx.count("server.order")
         expected = sorted([t for t in order if t in ready_step], key=lambda t: ready_step[t])
         got = [t for t in order if t in ready_step]
@@ -559,6 +578,15 @@ def run_case(ctx, opts):
             if tag in by_tag and by_tag[tag]["rst_at"] is None:
                 viol("h1-upstream-request-incomplete", {"upstream": data[:400], "tag": tag})
 
+    # an upstream stream the proxy left open although its client stream was reset while the body was streamed and the origin
+    # had already sent its complete answer (used by classify only)
+    for conn, p in origin_h2:
+        for sid, rec in p.streams.items():
+            m = TAGRE.search(dict(rec["headers"] or []).get(b":path", b""))
+            s_ = by_tag.get(m.group(0)) if m else None
+            if s_ is not None and s_["rst_at"] is not None and s_["stream_req"] and not rec["ended"] and rec["reset"] is None and sid in p.finished_answers:
+                case_info["leaked_upstream"] = True
+
     # ---- client.stream
     answered_ok = 0
     resp_order = []
@@ -578,7 +606,7 @@ def run_case(ctx, opts):
             if s["rst_at"] is not None:
                 continue  # the client gave up on it; only foreign content is refutable
             if rec is None or not (rec["ended"] or rec["reset"] is not None):
-                viol("client-stream-never-answered", {"tag": tag, "record": _short(rec), "upstream": seen_up.get(tag), "origin_rst": tag in server_rst_tags})
+                viol("client-stream-never-answered", {"tag": tag, "record": _short(rec), "upstream": seen_up.get(tag), "origin_rst": tag in server_rst_tags}, {"forwarded": tag in seen_up})
                 continue
             hd = dict(rec["headers"] or [])
             own_page = hd.get(b"server", b"").startswith(b"mitmproxy")
